@@ -467,8 +467,9 @@ theorem cyl_normal_on_axis (fp cost sint : K) :
   exact e
 
 /-- the gradient the CODE computes for a conic (radial derivative `cρ/φ`, azimuthal derivative `0`, polar route)
-is the Cartesian gradient `(c x/φ, c y/φ)` for EVERY point, the vertex included: a ray along the axis of
-symmetry is traced like any other ray -/
+is the Cartesian gradient `(c x/φ, c y/φ)` at every point of the surface, the vertex included (a ray along the axis of
+symmetry is traced like any other ray).  At the rim `φ = 0` both sides are `x/0`, equal only by the field convention `x/0 = 0`;
+the statement carries content for `φ ≠ 0`, which is the surface's domain -/
 theorem conic_code_gradient (sqrt : K → K) (c k r cost sint : K) (hcs : cost * cost + sint * sint = 1) :
     let dr := Generated.C19.conicSagDer sqrt c k r
     let g := sagGrad sqrt (.conic c k) (r * cost) (r * sint)
@@ -573,16 +574,13 @@ theorem vertex_plane (P0 S : V3 K) (hm : S.z ≠ 0) : (Generated.C19.toVertexPla
   ring
 
 /-- the ONLY statement made about the solver: if the Newton iteration stops (`|s_{j+1} − s_j| < ε`) then the
-residual `F(P_j) = Z_j − sag(X_j, Y_j)` at the point it returns satisfies `|F| < ε · |F'|`, `F' = S·r`
-(convergence itself is NOT proved) -/
+residual `F = Z_j − sag(X_j, Y_j)` at the point `P_j = P1 + s_j S` it returns (the point BEFORE the last update) satisfies
+`|F| < ε · |F'|`, `F' = S·r`, in exact arithmetic.  Convergence itself, the per-ray masking and rounding are NOT proved. -/
 theorem newton_postcondition (P1 S r : V3 K) (sj sag eps : K)
     (hFp : Generated.C19.newtonFp abs P1 S sj sag r ≠ 0)
     (hstop : Generated.C19.newtonDelta abs P1 S sj sag r < eps) :
-    Generated.C19.newtonF abs P1 S sj sag r = (Generated.C19.newtonPoint abs P1 S sj sag r).z - sag ∧
-    |Generated.C19.newtonF abs P1 S sj sag r| < eps * |Generated.C19.newtonFp abs P1 S sj sag r| := by
-  simp only [Generated.C19.newtonF, Generated.C19.newtonFp, Generated.C19.newtonDelta,
-    Generated.C19.newtonPoint] at *
-  refine ⟨trivial, ?_⟩
+    |(Generated.C19.newtonPoint abs P1 S sj sag r).z - sag| < eps * |V3.dot S r| := by
+  simp only [Generated.C19.newtonFp, Generated.C19.newtonDelta, Generated.C19.newtonPoint] at *
   have hpos : 0 < |V3.dot S r| := abs_pos.mpr hFp
   rw [sub_sub_cancel_left, abs_neg, abs_div, div_lt_iff₀ hpos] at hstop
   exact hstop
